@@ -120,7 +120,9 @@ func c20Ref(tmpl, ident string, ig, id int) (string, bool) {
 
 // ---- generators -----------------------------------------------------------
 
-var c20Fillers = []string{"", "_", "-", ".", "x", "__", "é", "ü", "中文", "ж", "ɐ", "ı", "ſ", "ß", "ǆ", "\xff", "\xc3", "a\x80b", "İ", " ", "K", "ﬁ", "1", "zz-"}
+var c20Fillers = []string{"", "_", "-", ".", "x", "__", "é", "ü", "中文", "ж", "ɐ", "ı", "ſ", "ß", "ǆ", "\xff", "\xc3", "a\x80b", "İ", " ", "K", "ﬁ", "1", "zz-",
+	// proper prefixes of the two words: a matcher must not lose the word that follows a partial match
+	"g", "G", "d", "D", "de", "Des", "design", "DESIGNE", "bigG", "og"}
 
 func c20Filler(r *rand.Rand) string {
 	n := r.Intn(3)
@@ -209,7 +211,7 @@ func TestVerifC20Format(t *testing.T) {
 			ext := ""
 			if r.Intn(8) == 0 {
 				// file-extension suffixes: occurrences of 'go' AFTER 'designer' are suffix text
-				ext = []string{".go", ".pb.go", "_gen.go", ".GO", ".go.tpl"}[r.Intn(5)]
+				ext = []string{".go", ".pb.go", "_gen.go", ".GO", ".go.tpl", "-go_designer", "godesigner", "_Designer", ".designer.go"}[r.Intn(9)]
 				class = "valid-go-in-suffix"
 			}
 			tmpl = pre + c20WordCase(r, "go", true) + thr + c20WordCase(r, "designer", true) + suf + ext
@@ -247,14 +249,25 @@ func TestVerifC20Format(t *testing.T) {
 			wantGo, wantDe = 0, 0
 		}
 		if class == "valid-go-in-suffix" {
-			// exactly one 'designer', exactly one 'go' before it, the others after it
-			before := 0
+			// exactly one 'go' before the first 'designer'; every further occurrence of either word
+			// lies after the end of that first 'designer', i.e. it is suffix text
+			if len(des) == 0 || len(gos) == 0 {
+				continue
+			}
+			before, inside := 0, false
 			for _, g := range gos {
-				if len(des) == 1 && g < des[0] {
+				if g < des[0] {
 					before++
+				} else if g < des[0]+8 {
+					inside = true
 				}
 			}
-			if len(des) != 1 || before != 1 || gos[0] > des[0] {
+			for _, d := range des[1:] {
+				if d < des[0]+8 {
+					inside = true
+				}
+			}
+			if before != 1 || inside || gos[0] > des[0] {
 				continue
 			}
 			class = "valid"
